@@ -47,6 +47,38 @@ def generate(tier, rng):
                         if n and (unit_only or repr_):
                             c.op(e.id, 'discrs', 'as-cast')
                         c.op(e.id, 'constfn', 'constfn')
+    # the integer type next to other hints / in another #[repr] attribute (F8, F9): C + int needs a data-carrying enum
+    # (rustc rejects the combination on a field-less one), align works everywhere
+    HINTS = [([['C', 'u8']], 'u8', False), ([['u8', 'C']], 'u8', False), ([['C'], ['u8']], 'u8', False), ([['u8'], ['C']], 'u8', False),
+             ([['i8', 'align(4)']], 'i8', None), ([['align(4)', 'i8']], 'i8', None), ([['i8'], ['align(4)']], 'i8', None),
+             ([['align(4)'], ['i8']], 'i8', None), ([['C'], ['align(8)'], ['u16']], 'u16', False), ([['i16'], ['C'], ['align(2)']], 'i16', False),
+             ([['align(2)'], ['align(8)']], None, None), ([['C']], None, None), ([['C'], ['align(4)']], None, None)]   # (a repeated integer hint is itself rejected by rustc: E0566)
+    for attrs, int_ty, unit_req in HINTS:
+        for unit_only in ((False,) if unit_req is False else (True, False)):
+            lays = reprcorpus.layouts(int_ty, 4)
+            names = ['implicit', 'gapped'] + (['negative'] if int_ty in ('i8', 'i16') else []) if (int_ty or unit_only) else ['implicit']
+            for lname in names:
+                if int_ty is None and not unit_only and lname != 'implicit':
+                    continue
+                pl = placements[k % len(placements)]
+                e = reprcorpus.make_enum('c06h%d' % k, 'EnC06h%d' % k, 4, int_ty, lname, lays[lname], pl, unit_only, ['FromRepr'], ['repr'])
+                e.extra['repr_attrs'] = attrs
+                e.extra['shape'] = 'hints=%s layout=%s unit_only=%s' % ('/'.join('+'.join(a) for a in attrs), lname, unit_only)
+                k += 1
+                c.add(e)
+                vals = reprcorpus.discr_values(e.variants)
+                lo, hi = reprcorpus.RANGE[int_ty or 'usize']
+                if int_ty is None:
+                    lo, hi = 0, 2 ** 64 - 1
+                probes = {0, lo, hi, 1}
+                for x in vals:
+                    probes |= {x - 1, x, x + 1}
+                for x in sorted(p for p in probes if lo <= p <= hi):
+                    c.op(e.id, 'repr %d' % x, ('discr' if x in vals else 'other') + '/multi-hint')
+                if int_ty in ('u8', 'i8', 'u16', 'i16'):
+                    c.op(e.id, 'reprall', 'exhaustive-%s/multi-hint' % int_ty)
+                if unit_only or int_ty:
+                    c.op(e.id, 'discrs', 'as-cast')
     return c
 
 
